@@ -267,6 +267,8 @@ pub struct Gen {
     pub pool: Vec<String>,
     pub occupied: [bool; NHANDLES],
     pub wcount: u32,
+    /// operations queued to follow the one just returned (two-step moves)
+    pub pending: Vec<Op>,
 }
 
 fn flip_case(rng: &mut Rng, s: &str) -> String {
@@ -298,7 +300,7 @@ impl Gen {
             };
             pool.push(s.to_string());
         }
-        Gen { rng, prof, pool, occupied: [false; NHANDLES], wcount: 0 }
+        Gen { rng, prof, pool, occupied: [false; NHANDLES], wcount: 0, pending: Vec::new() }
     }
 
     fn name(&mut self) -> String {
@@ -402,6 +404,22 @@ impl Gen {
     fn handle_io(&mut self, h: usize, live: &mut Live) -> Op {
         let len = live.handles[h].as_ref().map(|s| s.len()).unwrap_or(0);
         let r = self.rng.below(100);
+        if r < 5 {
+            // top up: append exactly as many bytes as bring the stream to a boundary
+            // (mini sector, sector, the 4096-byte cutoff and one byte either side of it)
+            let targets = [64u64, 128, 512, 1024, 4095, 4096, 4097, 8192];
+            let bigger: Vec<u64> = targets.iter().copied().filter(|&t| t > len).collect();
+            if !bigger.is_empty() {
+                let t = *self.rng.pick(&bigger);
+                let n = (t - len) as usize;
+                let data = self.data(n);
+                self.pending.push(Op::HWrite(h, data));
+                if self.rng.chance(1, 2) {
+                    self.pending.insert(0, Op::HFlush(h));
+                }
+                return Op::HSeek(h, Whence::End, 0);
+            }
+        }
         if r < 28 {
             let n = self.size();
             Op::HWrite(h, self.data(n))
@@ -465,6 +483,17 @@ impl Gen {
     /// Chooses the next operation, looking at the live object only to find
     /// existing paths (never to decide what the right result is).
     pub fn next_op(&mut self, live: &mut Live) -> Op {
+        if let Some(op) = self.pending.pop() {
+            // only while the handle it was planned for is still open
+            let alive = match &op {
+                Op::HWrite(h, _) | Op::HFlush(h) => live.handles[*h].is_some(),
+                _ => true,
+            };
+            if alive {
+                return op;
+            }
+            self.pending.clear();
+        }
         let es: Vec<Entry> = live.comp.as_ref().unwrap().walk().collect();
         let p = self.prof.clone();
         let total = p.w_create_storage
